@@ -75,7 +75,7 @@ def run(world, tier, info, only=None):
             ck.ob("R1", "write-site:%s/%s" % (p, cal), ok, site(s, c["l"]),
                   "file-system mutation inside veryl_cache must be one of the frozen (function, callee) pairs"
                   if not ok else "allowed: " + next(r for f, rx, r in WRITE_TABLE if owner == f and re.search(rx, cal)))
-    ck.floor("R1", "file-system mutation sites in veryl_cache", n_sites, 6)
+    ck.floor("R1", "file-system mutation sites in veryl_cache", n_sites, 3)
 
     # ---------------- R2: validation dominates the payload ----------------------------------
     rb = ST + "::read_blob"
